@@ -283,6 +283,24 @@ def spec10_op(case, r):
             "partial_reordering": case.get("pr") or []}
 
 
+def recreates(case):
+    """does the batch take the move-and-copy path?  (recreate='always', or under 'auto' an operation other than create_index /
+    drop_index / an add_column without a clause default or persisted Computed) - decided from the *input*, not from the statements
+    the implementation happened to emit"""
+    if case["recreate"] == "always":
+        return True
+    for o in case["ops"]:
+        if o["op"] in ("create_index", "drop_index"):
+            continue
+        if o["op"] == "add_column":
+            d = o["col"].get("default")
+            if (d is not None and not d.startswith("'")) or o["col"].get("computed") or o.get("fk") or o["col"].get("unique"):
+                return True
+            continue
+        return True
+    return False
+
+
 def failed_early(stmts):
     """the failure came at or before DROP of the original: no statement after `dropOld` was attempted,
     or `dropOld` itself was the failing one (then the clean-up `dropTmp` follows it)"""
